@@ -5,7 +5,7 @@ from vf.lazy import ck, libx, common
 from vf.monitors import algos
 
 PROP = "C09"
-TECHNIQUE = ('runtime monitoring with recording proxies as starting algorithms (the consensus each starter handed over is logged at the boundary); true scores by the reference model; designed local-search traps (6-25 and 1000+ elements); size classes with starters; aggregation again after an in-place mutation')
+TECHNIQUE = ('runtime monitoring with recording proxies as starting algorithms (the consensus each starter handed over is logged at the boundary); true scores by the reference model; designed local-search traps (6-25 and 1000+ elements); size classes with starters; aggregation again after an in-place mutation; starters given in a tuple / set / frozenset / dict view')
 RULE = ("cases = dataset (D2-D4, D6-D11, string / int names in shuffled insertion order so that element-id order differs "
         "from the order in the starters' consensuses; n<=8) x scheme (S1-S3, S6) x starter list ({Borda}, {Copeland}, "
         "{KwikSort}, {PickAPerm}, {Borda,Copeland,KwikSort}, and the sharp detectors {ExactAlgorithmPulp} and {BioConsert} "
@@ -100,10 +100,35 @@ def gen_case(rng, ctx):
     if ctx.params.get("huge"):
         return {"ds": huge_case(rng), "scheme": [list(v) for v in ref.PRESETS["unifying"]], "dcls": "huge", "scls": "S1",
                 "libseed": rng.randrange(10 ** 6), "starters": []}
+    if rng.random() < 0.05:
+        # two-bucket rankings that split the same elements in opposite ways, all with one common element in the first bucket
+        # (a unanimous winner), under cheap ties: moving one element at a time out of a bucket of two or three does not pay,
+        # so the input rankings are local optima and the all-tied ranking is the only departure that reaches its own score
+        g = rng.choice([2, 2, 3])
+        names = rng.sample(range(0, 40), 2 * g + 1)
+        top, rest = names[0], names[1:]
+        ds = []
+        for _ in range(rng.choice([1, 1, 2])):
+            rng.shuffle(rest)
+            g1, g2 = list(rest[:g]), list(rest[g:])
+            k = rng.choice([1, 2])
+            ds += [[[top] + g1, list(g2)] for _ in range(k)] + [[[top] + g2, list(g1)] for _ in range(k)]
+        rng.shuffle(ds)
+        pt = rng.choice([0.25, 0.375, 0.4, 0.5, 0.5])
+        sch = [[0., 1., pt, 0., 1., pt], [pt, pt, 0., pt, pt, 0.]]
+        return {"ds": libx.normalise_raw(ds), "scheme": sch, "dcls": "two-bucket-opposing+unanimous-first", "scls": "cheap-ties",
+                "libseed": rng.randrange(10 ** 6), "starters": []}
     if rng.random() < 0.15:
         # opposing rankings with ties + one-bucket partial rankings under cheap ties: the all-tied ranking is the best
         # starting point (and the other starts lead to worse local optima)
         cls, ds = gen.dataset(rng, cls="D15", n=rng.randint(3, 6), mmax=6)
+        if rng.random() < 0.5:
+            # ... and one more element that every ranking puts in its first bucket (a unanimous winner does not make any
+            # of the departure rankings dispensable)
+            names = ref.universe(ds)
+            top = max(names) + 1 if all(isinstance(x, int) for x in names) else "top_of_all"
+            ds = [[list(r[0]) + [top]] + [list(b) for b in r[1:]] if r else [[top]] for r in ds]
+            cls = "D15+unanimous-first"
         ds = libx.normalise_raw(ds)
         return {"ds": ds, "scheme": gen.scheme_cheap_ties(rng), "dcls": cls, "scls": "cheap-ties",
                 "libseed": rng.randrange(10 ** 6), "starters": rng.choice([[], [], [], ["BioCo!"], ["Borda"]])}
@@ -257,6 +282,8 @@ def judge(case, ctx, ds, dataset):
     if not starters and starts and len(elems) <= 60 and min(score(s) for _n, s in starts) == score([list(elems)]) \
             and sum(1 for _n, s in starts if score(s) == score([list(elems)])) == 1:
         ctx.count("all_tied_is_the_strictly_best_start")
+        if case.get("dcls") in ("D15+unanimous-first", "two-bucket-opposing+unanimous-first"):
+            ctx.count("all_tied_is_the_strictly_best_start:unanimous_first_element")
     for name, srank in starts:
         if not common.wellformed_raw(srank, elems):
             continue
@@ -289,7 +316,9 @@ def reach(counters, tier, info):
                             ("... where the step is remove_empty_rankings", "history:remove_empty", 15 * k),
                             ("runs on 63-1025 elements / 40-257 rankings with starters", "xlarge_runs", 6 if tier == "quick" else 24),
                             ("no-starter runs where the all-tied ranking is the strictly best starting point",
-                             "all_tied_is_the_strictly_best_start", 30 * k)]:
+                             "all_tied_is_the_strictly_best_start", 30 * k),
+                            ("... and some element is in the first bucket of every input ranking",
+                             "all_tied_is_the_strictly_best_start:unanimous_first_element", 10 * k)]:
         v = counters.get(key, 0)
         out.append({"name": name, "observed": v, "required": need, "ok": v >= need})
     for st in STARTERS:
